@@ -60,8 +60,9 @@ EqJ(a, b) ==
        [] a.k = "int" -> a.i.neg = b.i.neg /\ a.i.mag = b.i.mag
        [] a.k = "float" -> a.f = b.f
        [] a.k = "bool" -> a.v = b.v
-       [] a.k = "arr" -> a.nil = b.nil /\ Len(a.e) = Len(b.e) /\ \A i \in 1..Len(a.e) : EqJ(a.e[i], b.e[i])
-       [] a.k = "obj" -> /\ a.nil = b.nil /\ Len(a.m) = Len(b.m)
+       \* nil and empty containers are interchangeable in the JSON model (C16)
+       [] a.k = "arr" -> Len(a.e) = Len(b.e) /\ \A i \in 1..Len(a.e) : EqJ(a.e[i], b.e[i])
+       [] a.k = "obj" -> /\ Len(a.m) = Len(b.m)
                          /\ \A i \in 1..Len(a.m) : \E j \in 1..Len(b.m) : a.m[i][1] = b.m[j][1] /\ EqJ(a.m[i][2], b.m[j][2])
                          /\ \A i \in 1..Len(b.m) : \E j \in 1..Len(a.m) : a.m[j][1] = b.m[i][1]
 
